@@ -93,6 +93,17 @@ TEXT = {
   "note": "Lean kernel; correspondence incl. the ordered stream of event/check/download callbacks, sampled by this run's campaign.",
   "technique": "Lean 4 theorem (per-call characterisation of state.json and the emitted actions) + differential correspondence check",
  },
+ "C03": {
+  "level": "Theorem C03_holds: for every history with one configured key and a server that does not re-issue the last good number with other bytes, the C03 monitor "
+           "accepts the model trace - (a) from the success report of n on, n's artifact keeps exactly its bytes through every later call (installs of newer/older "
+           "numbers while another is pending, re-installs of n, channel switches, rollbacks of others, restarts, damage elsewhere) until a different patch boots "
+           "successfully, n fails/crashes, n is rolled back, the release changes or n / the state files are damaged from outside; (b) whenever a call loses the selected "
+           "patch, the selection afterwards is that last good patch, or nothing if there is none. Invariants GoodD (last good record + bytes + validity of every record "
+           "of n) and RelPS (how selection and last-good record may move), pushed through every patch-manager function, section and call. Same monitor on real traces.",
+  "design_ref": "DESIGN.md section 3, C03",
+  "note": "Lean kernel; model/code correspondence sampled by this run's campaign (pending-patch clean-up with a last good patch present, re-installs, damage).",
+  "technique": "Lean 4 theorem (inductive invariants over all histories) + differential correspondence check",
+ },
  "C09": {
   "level": "Theorem C09_holds: for every history whose effective inits configure one public key, the C09 monitor accepts the model trace - after an update "
            "reports n installed, n is the next-boot patch (installed_is_next, every disk); and once every record of number n matches the artifact in place, n stays "
